@@ -22,6 +22,7 @@ import OpyVerif.Generated.FindDefs
 import OpyVerif.Generated.PropsDefs
 import OpyVerif.Generated.SelectDefs
 import OpyVerif.Generated.HeapOpsDefs
+import OpyVerif.Generated.GrowDefs
 import OpyVerif.Generated.ClipLoopsDefs
 /-
 Line-protocol driver: runs the *executable model definitions* on inputs sent by the Python
@@ -173,6 +174,11 @@ def step (d : DState) (line : String) : DState × String :=
     | some f, some m, some pf, some pm =>
       (d, match Opy.runCross Opy.Gen.crossFrame.cond Opy.Gen.crossBody f m pf pm with
           | some (a, b) => canonTree a ++ " " ++ canonTree b | none => "error")
+    | _, _, _, _ => (d, "bad-op")
+  | ["w.grow", funcs, nT, k, draws] => match parseNats funcs, nT.toNat?, k.toNat?, parseNats draws with
+    | some fs, some nT, some k, some ds =>
+      (d, match Opy.Gen.growProg.run { funcs := fs, ar := Opy.Gen.arityByCode, nTerminals := nT } k ds 0 with
+          | some (t, rest, _) => canonTree t ++ " " ++ toString rest.length | none => "error")
     | _, _, _, _ => (d, "bad-op")
   | ["t.grow", funcs, nT, k, draws] => match parseNats funcs, nT.toNat?, k.toNat?, parseNats draws with
     | some fs, some nT, some k, some ds =>
